@@ -13,7 +13,7 @@ TECHNIQUE = "metamorphic relations between whole simulations: same physics under
 RULE = (
     "observer case = generated device/drive/options solved under two recording configurations drawn independently (save_every, explicit output "
     "file vs temporary, probe points present/absent, progress_interval); resume case = fixed-dt, time-independent drive, all splits N1+N2 drawn, "
-    "second part seeded with the first part's Solution; non-trivial = the two configurations differ in save_every and share >= 2 step labels, "
+    "second part seeded with the first part's Solution (as returned, or read back from its file), continued 1..3 times from that same saved state; non-trivial = the two configurations differ in save_every and share >= 2 step labels, "
     "or a resume with N1, N2 >= 2; distinct by spec hash"
 )
 ASSUMPTIONS = [
@@ -27,8 +27,8 @@ LEVEL_NOTE = "Trusted: h5py reads; SHA-256 digests as bit-identity."
 
 def budget(tier):
     if tier == "quick":
-        return dict(max_examples=240, workers=6, time_s=170, min_cases=80)
-    return dict(max_examples=2500, workers=16, time_s=1200, min_cases=160)
+        return dict(max_examples=360, workers=8, time_s=170, min_cases=100)
+    return dict(max_examples=15000, workers=16, time_s=1200, min_cases=200)
 
 
 @st.composite
@@ -56,7 +56,9 @@ def _case(draw, tier):
         cur = draw(gen.currents(dev, cu, kinds=("dict",)))
         adaptive = False
         n1 = draw(st.integers(1, nsteps - 1))
-        extra = dict(n1=n1, n2=nsteps - n1, save_every=draw(st.integers(1, nsteps)), save_every_b=draw(st.integers(1, nsteps)))
+        # the saved state is used as handed back (in memory), or read back from its file, and may be continued more than once
+        extra = dict(n1=n1, n2=nsteps - n1, save_every=draw(st.integers(1, nsteps)), save_every_b=draw(st.integers(1, nsteps)),
+                     seed_from=draw(st.sampled_from(["memory", "memory", "disk"])), repeat=draw(st.sampled_from([1, 2, 2, 3])))
     return dict(kind=kind, device=dev, field=fld, currents=cur, nsteps=nsteps,
                 options=dict(dt_c=draw(gen.rf(0.05, 0.4)), dtmax_c=0.45, adaptive=adaptive, adaptive_window=draw(st.integers(1, 5)),
                              include_screening=scr, screening_tolerance=1e-3, field_units=fu, current_units=cu,
@@ -70,7 +72,7 @@ def strategy(tier):
 KEYS = ("psi", "mu", "supercurrent", "normal_current", "induced_vector_potential")
 
 
-def _run(dev, spec, nsteps, save_every, output="file", progress_interval=0, seed_solution=None, T=None):
+def _run(dev, spec, nsteps, save_every, output="file", progress_interval=0, seed_solution=None, T=None, reload=False):
     """returns dict(frames by step label (or only the final one), dt record, solution)"""
     import os
 
@@ -96,15 +98,16 @@ def _run(dev, spec, nsteps, save_every, output="file", progress_interval=0, seed
             frames, _ = sim.read_frames(sol.path)
             out["frames"] = {int(f["attrs"]["step"]): f for f in frames}
             out["exists"] = os.path.exists(sol.path)
-        out["solution"] = sol if seed_solution is None and path is not None else None
-        if out["solution"] is not None:
-            # keep the file alive for a resume: load everything needed now
-            _ = sol.tdgl_data
-        yield_sol = sol
-        out["_sol"] = yield_sol
-        return_frames = out
+        out["_sol"] = sol
+        if reload and path is not None:
+            # the same saved state read back from its file; everything a continuation needs is loaded while the file exists
+            import tdgl
+
+            disk = tdgl.Solution.from_hdf5(sol.path)
+            _ = disk.tdgl_data
+            out["_sol_disk"] = disk
         # seed solutions must stay readable after the work directory is gone: they only use in-memory tdgl_data
-    return return_frames
+    return out
 
 
 def _same(a, b):
@@ -174,29 +177,38 @@ def _observer(spec, dev, res):
 
 def _resume(spec, dev, res):
     n1, n2 = spec["n1"], spec["n2"]
+    seed_from, repeat = spec.get("seed_from", "memory"), int(spec.get("repeat", 1))
     full = _run(dev, spec, n1 + n2, spec["save_every"])
-    first = _run(dev, spec, n1, spec["save_every_b"])
-    seed = first["_sol"]
+    first = _run(dev, spec, n1, spec["save_every_b"], reload=seed_from == "disk")
+    seed = first["_sol_disk"] if seed_from == "disk" else first["_sol"]
     # the seed's label is what the continuation is counted from
     label = first["final_step"]
     if label != n1:
         res.fail("C11.resume_label", f"first part was asked for {n1} steps but its final frame is labelled step {label}")
         return res
-    second = _run(dev, spec, n2, 1, seed_solution=seed)
-    res.label(f"split={'early' if n1 <= 2 else 'mid'}")
+    res.label(f"split={'early' if n1 <= 2 else 'mid'}", f"saved state from {seed_from}", f"continued {repeat}x from the same saved state")
     res.nontrivial = n1 >= 2 and n2 >= 2
     ff = full["frames"]
-    compared = 0
-    for j, fr in sorted(second["frames"].items()):
-        s = n1 + j
-        if s in ff:
-            compared += 1
-            if not _same(ff[s], fr):
+    saved = {k: np.array(getattr(seed.tdgl_data, k)) for k in KEYS}
+    for rep in range(repeat):
+        # every continuation from the same saved state is a continuation "from a saved final state"
+        second = _run(dev, spec, n2, 1, seed_solution=seed)
+        which = f"continuation {rep + 1} of {repeat} from the {seed_from} copy of the saved state"
+        for j, fr in sorted(second["frames"].items()):
+            s = n1 + j
+            if s in ff and not _same(ff[s], fr):
                 bad = [k for k in KEYS if not np.array_equal(ff[s][k], fr[k])]
-                res.fail("C11.resume", f"resumed run (split {n1}+{n2}) at its step {j} differs from the uninterrupted run's frame {s} in {bad}")
+                res.fail("C11.resume", f"resumed run (split {n1}+{n2}, {which}) at its step {j} differs from the uninterrupted run's frame {s} in {bad}")
                 break
-    if not _same(full["final"], second["final"]):
-        res.fail("C11.resume_final", f"final state of the resumed run (split {n1}+{n2}) differs from the uninterrupted run")
-    if len(second["dt"]) != n2 or not np.array_equal(second["dt"], full["dt"][n1:]):
-        res.fail("C11.resume_dt", f"resumed run made {len(second['dt'])} steps, expected {n2} equal to the tail of the uninterrupted run")
+        if not _same(full["final"], second["final"]):
+            res.fail("C11.resume_final", f"final state of the resumed run (split {n1}+{n2}, {which}) differs from the uninterrupted run")
+        if len(second["dt"]) != n2 or not np.array_equal(second["dt"], full["dt"][n1:]):
+            res.fail("C11.resume_dt", f"resumed run ({which}) made {len(second['dt'])} steps, expected {n2} equal to the tail of the uninterrupted run")
+        # (whether continuing alters the in-memory saved state is only labelled: the property is about the frames, and a
+        #  change that matters shows up in the next continuation from the same state)
+        now = {k: np.array(getattr(seed.tdgl_data, k)) for k in KEYS}
+        if not _same(saved, now):
+            res.label("continuing altered the in-memory saved state")
+        if res.violations:
+            break
     return res
